@@ -87,7 +87,10 @@ def enumerate_history(hist, wd, rng, max_points=None, torn=True):
         nth.append((c["call"], occ[c["call"]]))
     ks = [k for k in range(2, len(calls) + 1) if calls[k - 2]["mutating"] or (calls[k - 1]["mutating"] and calls[k - 1]["data"] is not None)]
     if max_points and len(ks) > max_points:
-        ks = sorted(rng.sample(ks, max_points))
+        # crash points behind the rare calls (GC marks, truncations, unlinks, renames, directory operations) are always kept
+        rare = [k for k in ks if calls[k - 2]["call"] not in ("write", "openat")]
+        rest = [k for k in ks if k not in rare]
+        ks = sorted(set(rare + rng.sample(rest, max(0, min(len(rest), max_points - len(rare))))))
     shutil.rmtree(d0, ignore_errors=True)
     failures = []
     ntorn = [0]
